@@ -31,6 +31,38 @@ NEEDS = {
  "C16-b": "a list/tuple not already ascending (or a descending linspace/range): the identifier is the md5 of the unsorted input",
  "C17-b": "a name whose number tokens all denote the same integer (ico_12_12, ico_012_12)",
  "C19-b": "Cartesian mode with exactly one radius (constructor IndexError for every n_o, n_b)",
+ "C01-c": "coo input and a SECOND get_rate_matrix call / second SQRA on the same border array (in-place scaling and division of the caller's data)",
+ "C02-c": "get_full_prefactors() then a matrix getter on the SAME FullGrid object (lru_cache hands out one shared matrix that is divided in place)",
+ "C04-c": "a rotation grid with exactly N = 4 points (threshold written as dimensions + 1)",
+ "C05-c": "borders first, then volumes / borders again on the same PositionGrid (cached shell boundaries squared in place)",
+ "C07-c": "a 3-D grid with 2N rows asked for its upper rows first, then an N-rotation grid in the same process (class-level memo keyed by row count)",
+ "C09-c": "the caller edits the array returned by get_full_grid_as_array, then asks again (memo handed out without a copy)",
+ "C10-c": "a first generator abandoned at a yield, then a second pseudotrajectory from the same molecule object",
+ "C11-c": "the same grid array decomposed / used a second time (normalised in place through a view)",
+ "C12-c": "a cell that takes part in exactly one counted window (row sum 1/2 + 1/2 = 1 hits the guard)",
+ "C13-c": "a deletion naming two members of one merged group, with the index list threaded",
+ "C14-c": "a large common energy offset (per-cell exponentials underflow; identical over the reals)",
+ "C16-c": "get_between_radii asked with both include_zero values for the same radii in one process",
+ "C17-c": "a standard name produced in one role, then parsed in the other role in the same process",
+ "C19-c": "Cartesian mode, n_o in {3,4}, borders before volumes on one object (list.remove(-1) on the stored regions)",
+ "C01-d": "energy spread above ~1400 RT (about 3500 kJ/mol at 300 K) with a neighbouring pair among the high cells below the cap: per-cell weights underflow (identical over the reals)",
+ "C02-d": "two FullGrid objects with different factors in one process; a getter on the earlier one after the later one was constructed (class-level scaling table)",
+ "C04-d": "FullGrid with exactly one position and n_b >= 4: get_full_prefactors() divides the cached rotation matrix in place; or any caller editing .data of a returned matrix and asking again",
+ "C05-d": "a Cartesian-mode grid evaluated first, then a default grid with the same o/t names in the same process (cache keyed by a name that ignores the mode)",
+ "C07-d": "hemisphere_quaternion_set applied to the float double-cover array a 4-D grid handed out (flipped in place: the grid becomes [G; G])",
+ "C09-d": "two radial grids whose shortened (32-bit) md5 identifiers collide, same direction grid, in one process (position array cached by name)",
+ "C10-d": "get_one_molecule_pt_as_universe, then an in-place edit of the returned universe, then get_pt_as_universe on the same object (view into the cached trajectory)",
+ "C11-d": "two AssignmentTool objects in one process whose grids have the same shape and the same sum of absolute entries (e.g. radii with equal sum)",
+ "C12-d": "more than 46 340 cells and a visited start cell with index >= 2^31 / n (int32 wrap of start*n+end); beyond every bound of the check",
+ "C13-d": "csr input, a deletion after which a row in the MIDDLE of the matrix has no stored entry at all (np.add.reduceat on the CSR buffers)",
+ "C14-d": "one DecompositionTool called with two different non-None spectral shifts (LU factorisation cached without its sigma)",
+ "C16-d": "a range/arange form whose last intended radius lies within 1e-5 (relative) of stop (dropped by np.isclose)",
+ "C17-d": "a name with two algorithm tokens one of which contains 'zero' (lazy fields: the duplicate check never runs)",
+ "C19-d": "n_b >= 2 and the forwarded position adjacency (or Cartesian borders/distances) asked before the first get_full_adjacency on one object",
+}
+NOT_CAUGHT = {
+ "C12-d": "not caught, and not catchable inside the bound: the defect is a 32-bit wrap that needs more than 46 340 cells (the check covers n <= 4 and models Python/NumPy integers as mathematical integers); the restructured counting (np.unique(return_counts) / divmod / coo_array on symbolic cell indices) is also beyond what the array model encodes, so the check ends with a harness error (exit 2), never with a pass",
+ "C14-d": "not caught: the spectral sentence is covered for the sorting glue only, with ARPACK as a contract stub for the plain call; what ARPACK returns when it is handed a stale shift-invert operator is ARPACK's semantics (outside, DESIGN section 6). With sigma=None -- the only setting the glue harness uses -- the changed code behaves exactly as before, so the check passes",
 }
 for d in sorted(glob.glob(os.path.join(ROOT, "seeded", "C*-*"))):
     sid = os.path.basename(d)
@@ -45,11 +77,13 @@ for d in sorted(glob.glob(os.path.join(ROOT, "seeded", "C*-*"))):
         runs[p] = {"exit": 1 if "VIOLATION property=" in t else (2 if "HARNESS-ERROR" in t else 0), "violation_lines": sum(1 for l in t.splitlines() if l.startswith("VIOLATION")),
                    "summary": next((l for l in t.splitlines() if l.startswith("[")), "")}
     meta = {"seed": sid, "breaks_property": prop,
-            "origin": "fresh sub-agent given only the property text and a scratch worktree of /repo" + (" (round 2: told which idea was already taken)" if sid.endswith("-b") else " (round 1)"),
+            "origin": "fresh sub-agent given only the property text and a scratch worktree of /repo" + {"a": " (round 1)", "b": " (round 2: told which idea was already taken)", "c": " (round 3: told the two ideas already taken; asked for multi-step sequences, cooperating sites, state, aliasing)", "d": " (round 4: told the three ideas already taken; asked for a clearly different mechanism and site)"}[sid[-1]],
             "needs_to_manifest": NEEDS.get(sid, ""),
             "confirmed_in_scratch_worktree": {"command": f"tools/seedconfirm.sh seeded/{sid}", "result": summ,
                                               "meaning": "demo.py exits 0 on /repo HEAD and 1 with patch.diff applied; full existing suite with the patch: only the 4 known missing-input failures of tests/test_pt.py"},
             "checks_run_with_patch_applied_to_repo": {"command": f"tools/seedofficial.sh seeded/{sid} " + " ".join(sorted(runs)), "results": runs, "patch_undone_afterwards": True},
-            "caught": bool(runs) and all(r["exit"] == 1 for r in runs.values())}
+            "caught": bool(runs) and any(r["exit"] == 1 for r in runs.values())}
+    if sid in NOT_CAUGHT:
+        meta["not_caught_because"] = NOT_CAUGHT[sid]
     json.dump(meta, open(os.path.join(d, "meta.json"), "w"), indent=1)
     print(sid, "caught" if meta["caught"] else "NOT-RECORDED-YET", "|", summ[:70])
